@@ -50,6 +50,11 @@ def _is_arg(t, i: int) -> bool:
 def run(ctx: Ctx, env):
     repo = env.repo
     H = heval.get(env)
+    # the handlers rely on typing.infer_type / typecheck to refuse ill-typed arguments and to accept well-typed ones: the rules
+    # of C18 (what type each call has, when typecheck must raise) are a precondition
+    from . import c18 as _c18
+    from .c04 import _SubCtx
+    _c18.run(_SubCtx(ctx, only={"R1.return-type", "R2.infer-type-of-call", "R3.typecheck"}, rename=lambda r: "R0.typing-" + r.split(".", 1)[1]), env)
     for q in (ORM, CORE):
         if q not in repo.classes:
             raise AnalysisError(f"{q} not found")
@@ -91,7 +96,9 @@ def run(ctx: Ctx, env):
                       "a in (1, 2)")
     ctx.floor("operator handler paths", n_ops, 26)
     for vcls in (ORM, CORE):
-        for kind, d, first in (("Compare", "Gt", "comparator"), ("BinOp", "Sub", "op"), ("BoolOp", "And", "op")):
+        for kind, d, first in (("Compare", "Gt", "comparator"), ("Compare", "GtE", "comparator"), ("Compare", "Lt", "comparator"),
+                               ("Compare", "LtE", "comparator"), ("BinOp", "Sub", "op"), ("BinOp", "Add", "op"), ("BinOp", "Mult", "op"),
+                               ("BinOp", "Div", "op"), ("BinOp", "Mod", "op"), ("BoolOp", "And", "op"), ("BoolOp", "Or", "op")):
             for p in H.eval_visit(vcls, kind, d) or []:
                 if p.outcome != "return":
                     continue
